@@ -1,7 +1,20 @@
 #!/bin/sh
-# Build the harness (native verif profile) from files on disk only; other
-# build modes are built on first use by ./check.
+# Build the harness (native verif profile, both feature sets the checks use) from files on disk only;
+# other build modes are built on first use by ./check.
+# Incremental compilation is off everywhere (see ./check): a target directory that had seen several versions
+# of /repo and of the harness once produced objects the linker refused, while a from-scratch build linked.
 set -e
 cd "$(dirname "$0")"
 export CARGO_NET_OFFLINE=true
-cargo build --profile verif --manifest-path harness/Cargo.toml --target-dir target/native --no-default-features --features crypto,hooks
+export CARGO_INCREMENTAL=0
+build() {
+  cargo build --profile verif --manifest-path harness/Cargo.toml --target-dir target/native --no-default-features --features "$1"
+}
+for feats in crypto,hooks hooks; do
+  if ! build "$feats"; then
+    # artefacts of an earlier build that do not fit together: rebuild what comes from /repo and the harness
+    cargo clean --profile verif --manifest-path harness/Cargo.toml --target-dir target/native -p dverif -p domain || true
+    rm -rf target/native/verif/incremental
+    build "$feats"
+  fi
+done
